@@ -1,5 +1,6 @@
 //! C15 — interleaving and puncturing are exact, invertible re-orderings.
 
+use crate::common::{LAYOUTS, layout_name, with_layout};
 use crate::engine::*;
 use crate::ensure;
 use ldpc_toolbox::gf2::GF2;
@@ -16,6 +17,12 @@ pub struct IlCase {
     pub rows: usize,
     pub backward: bool,
     pub salt: u32,
+    /// memory layout of the arrays handed to `interleave` (see common::with_layout)
+    #[serde(default)]
+    pub layout: u8,
+    /// > 0: the same interleaver object is first used on a block of `columns * warm_rows` elements
+    #[serde(default)]
+    pub warm_rows: usize,
 }
 
 fn il_all(t: Tier) -> Vec<IlCase> {
@@ -24,7 +31,11 @@ fn il_all(t: Tier) -> Vec<IlCase> {
     for columns in 1..=max {
         for rows in 1..=max {
             for backward in [false, true] {
-                v.push(IlCase { columns, rows, backward, salt: 3 });
+                v.push(IlCase { columns, rows, backward, salt: 3, layout: 0, warm_rows: 0 });
+                // the same shape again through a non-standard layout on an object that has already
+                // processed a block of another length
+                let layout = 1 + ((columns + 2 * rows + usize::from(backward)) % (LAYOUTS as usize - 1)) as u8;
+                v.push(IlCase { columns, rows, backward, salt: 5, layout, warm_rows: 1 + (rows + columns) % 7 });
             }
         }
     }
@@ -33,21 +44,40 @@ fn il_all(t: Tier) -> Vec<IlCase> {
 
 fn il_strategy(_t: Tier) -> BoxedStrategy<IlCase> {
     let dim = || prop_oneof![2 => Just(1usize), 5 => 1usize..=12, 2 => 13usize..=64];
-    (dim(), dim(), any::<bool>(), any::<u32>()).prop_map(|(columns, rows, backward, salt)| IlCase { columns, rows, backward, salt }).boxed()
+    (dim(), dim(), any::<bool>(), any::<u32>(), 0..LAYOUTS, prop_oneof![3 => Just(0usize), 2 => 1usize..=12]).prop_map(|(columns, rows, backward, salt, layout, warm_rows)| IlCase { columns, rows, backward, salt, layout, warm_rows }).boxed()
 }
 
 fn check_il(c: &IlCase, p: &mut Probe) -> Check {
     let (cc, rr) = (c.columns, c.rows);
     let n = cc * rr;
     let il = Interleaver::new(cc, c.backward);
+    let lay = c.layout;
+    if c.warm_rows > 0 && c.warm_rows != rr {
+        // history: the object first processes a block of another length (both directions of use)
+        let (r0, n0) = (c.warm_rows, cc * c.warm_rows);
+        let x0: Vec<u32> = (0..n0 as u32).map(|i| i ^ 0x5a5a_0000).collect();
+        let y0 = guarded(|| il.interleave(&Array1::from_vec(x0.clone())).to_vec()).map_err(|e| Fail::new("panic", format!("interleave panicked on the first block: {e}")))?;
+        ensure!(y0.len() == n0, "length", "interleave changed the length to {}", y0.len());
+        for r in 0..r0 {
+            for k in 0..cc {
+                let src = if c.backward { (cc - 1 - k) * r0 + r } else { k * r0 + r };
+                ensure!(y0[r * cc + k] == x0[src], "permutation", "columns {cc}, rows {r0}, backward {}: output[{}] should be input[{src}]", c.backward, r * cc + k);
+            }
+        }
+        let b0 = guarded(|| il.deinterleave(&y0)).map_err(|e| Fail::new("panic", format!("deinterleave panicked on the first block: {e}")))?;
+        ensure!(b0 == x0, "inverse", "deinterleave(interleave(x)) != x for columns {cc}, rows {r0}");
+        p.class("object-reused-with-another-length");
+    }
+    // a clone taken after first use serves the second half of the checks
+    let il_clone = il.clone();
     // distinct labels: any misplacement is visible
     let x: Vec<u32> = (0..n).map(|i| ((splitmix(c.salt as u64 + i as u64) as u32) & 0xffff_0000) | i as u32).collect();
-    let y = guarded(|| il.interleave(&Array1::from_vec(x.clone())).to_vec()).map_err(|e| Fail::new("panic", format!("interleave panicked: {e}")))?;
+    let y = guarded(|| with_layout(&x, 0xdead_beef, lay, |v| il.interleave(&v).to_vec())).map_err(|e| Fail::new("panic", format!("interleave panicked ({}): {e}", layout_name(lay))))?;
     ensure!(y.len() == n, "length", "interleave changed the length to {}", y.len());
     for r in 0..rr {
         for k in 0..cc {
             let src = if c.backward { (cc - 1 - k) * rr + r } else { k * rr + r };
-            ensure!(y[r * cc + k] == x[src], "permutation", "columns {cc}, rows {rr}, backward {}: output[{}] should be input[{src}]", c.backward, r * cc + k);
+            ensure!(y[r * cc + k] == x[src], "permutation", "columns {cc}, rows {rr}, backward {}, input layout {}, earlier block rows {}: output[{}] should be input[{src}]", c.backward, layout_name(lay), c.warm_rows, r * cc + k);
         }
     }
     let back = guarded(|| il.deinterleave(&y)).map_err(|e| Fail::new("panic", format!("deinterleave panicked: {e}")))?;
@@ -56,7 +86,9 @@ fn check_il(c: &IlCase, p: &mut Probe) -> Check {
     ensure!(il.interleave(&Array1::from_vec(z)).to_vec() == x, "inverse", "interleave(deinterleave(y)) != y for columns {cc}, rows {rr}, backward {}", c.backward);
     // other element types: f64 (incl. -0.0) and GF2
     let xf: Vec<f64> = x.iter().map(|&v| if v % 7 == 0 { -0.0 } else { v as f64 * 0.5 - 9.0 }).collect();
-    let yf = il.interleave(&Array1::from_vec(xf.clone())).to_vec();
+    let il = il_clone;
+    let yf = guarded(|| with_layout(&xf, f64::NAN, lay, |v| il.interleave(&v).to_vec())).map_err(|e| Fail::new("panic", format!("interleave panicked ({}): {e}", layout_name(lay))))?;
+    ensure!(yf.len() == n, "length", "interleave changed the length to {}", yf.len());
     for (i, v) in yf.iter().enumerate() {
         let (r, k) = (i / cc, i % cc);
         let src = if c.backward { (cc - 1 - k) * rr + r } else { k * rr + r };
@@ -65,7 +97,8 @@ fn check_il(c: &IlCase, p: &mut Probe) -> Check {
     let bf = il.deinterleave(&yf);
     ensure!(bf.iter().zip(&xf).all(|(a, b)| a.to_bits() == b.to_bits()), "inverse-f64", "f64 deinterleave is not the inverse");
     let xg: Vec<GF2> = x.iter().map(|&v| if v.count_ones() % 2 == 1 { GF2::one() } else { GF2::zero() }).collect();
-    let yg = il.interleave(&Array1::from_vec(xg.clone())).to_vec();
+    let yg = guarded(|| with_layout(&xg, GF2::one(), lay, |v| il.interleave(&v).to_vec())).map_err(|e| Fail::new("panic", format!("interleave panicked ({}): {e}", layout_name(lay))))?;
+    ensure!(yg.len() == n, "length", "interleave changed the length to {}", yg.len());
     for (i, v) in yg.iter().enumerate() {
         let (r, k) = (i / cc, i % cc);
         let src = if c.backward { (cc - 1 - k) * rr + r } else { k * rr + r };
@@ -75,6 +108,7 @@ fn check_il(c: &IlCase, p: &mut Probe) -> Check {
     p.class_if(cc != rr, "non-square");
     p.class_if(cc == 1 || rr == 1, "degenerate");
     p.class_if(c.backward, "backward");
+    p.class_if(lay % LAYOUTS != 0, "non-standard-layout");
     if cc >= 2 && rr >= 2 {
         p.nontrivial();
     }
@@ -86,17 +120,22 @@ pub struct PuCase {
     pub pattern: Vec<bool>,
     pub block: usize,
     pub extra: usize,
+    #[serde(default)]
+    pub layout: u8,
+    /// > 0: the same puncturer object first processes a codeword with this block size
+    #[serde(default)]
+    pub warm_block: usize,
 }
 
 fn pu_strategy(_t: Tier) -> BoxedStrategy<PuCase> {
-    (proptest::collection::vec(any::<bool>(), 1..=8), any::<u16>(), 1usize..=6, 0usize..=6)
-        .prop_map(|(mut pattern, k, block, extra)| {
+    (proptest::collection::vec(any::<bool>(), 1..=8), any::<u16>(), 1usize..=6, 0usize..=6, 0..LAYOUTS, prop_oneof![3 => Just(0usize), 2 => 1usize..=6])
+        .prop_map(|(mut pattern, k, block, extra, layout, warm_block)| {
             // at least one true, by construction
             if !pattern.iter().any(|&b| b) {
                 let i = idx(k, pattern.len());
                 pattern[i] = true;
             }
-            PuCase { pattern, block, extra }
+            PuCase { pattern, block, extra, layout, warm_block }
         })
         .boxed()
 }
@@ -107,11 +146,24 @@ fn check_pu(c: &PuCase, p: &mut Probe) -> Check {
     let pu = Puncturer::new(pat);
     let n = pat.len() * bs;
     let t = pat.iter().filter(|&&b| b).count();
+    if c.warm_block > 0 && c.warm_block != bs {
+        let b0 = c.warm_block;
+        let x0: Vec<i64> = (0..(pat.len() * b0) as i64).map(|v| 7 * v - 50).collect();
+        let y0 = guarded(|| pu.puncture(&Array1::from_vec(x0.clone()))).map_err(|e| Fail::new("panic", format!("puncture panicked on the first codeword: {e}")))?.map_err(|e| Fail::new("puncture-err", format!("puncture rejected a divisible length: {e}")))?.to_vec();
+        let want0: Vec<i64> = (0..pat.len()).filter(|&b| pat[b]).flat_map(|b| x0[b * b0..(b + 1) * b0].to_vec()).collect();
+        ensure!(y0 == want0, "puncture", "pattern {pat:?}, block {b0}: kept {y0:?}, expected {want0:?}");
+        let d0 = guarded(|| pu.depuncture(&y0)).map_err(|e| Fail::new("panic", format!("depuncture panicked on the first codeword: {e}")))?.map_err(|e| Fail::new("depuncture-err", format!("{e}")))?;
+        ensure!(d0.len() == x0.len() && (0..x0.len()).all(|i| d0[i] == if pat[i / b0] { x0[i] } else { 0 }), "depuncture", "pattern {pat:?}, block {b0}: depunctured {d0:?}");
+        p.class("object-reused-with-another-length");
+    }
+    let pu = pu.clone();
+    let lay = c.layout;
+    p.class_if(lay % LAYOUTS != 0, "non-standard-layout");
     let x: Vec<i64> = (1..=n as i64).map(|v| v * 3 + 1000).collect();
-    let y = guarded(|| pu.puncture(&Array1::from_vec(x.clone()))).map_err(|e| Fail::new("panic", format!("puncture panicked: {e}")))?;
+    let y = guarded(|| with_layout(&x, -777, lay, |v| pu.puncture(&v))).map_err(|e| Fail::new("panic", format!("puncture panicked ({}): {e}", layout_name(lay))))?;
     let y = y.map_err(|e| Fail::new("puncture-err", format!("puncture rejected a divisible length: {e}")))?.to_vec();
     let want: Vec<i64> = (0..pat.len()).filter(|&b| pat[b]).flat_map(|b| x[b * bs..(b + 1) * bs].to_vec()).collect();
-    ensure!(y == want, "puncture", "pattern {pat:?}, block {bs}: kept {y:?}, expected the true blocks in order {want:?}");
+    ensure!(y == want, "puncture", "pattern {pat:?}, block {bs}, input layout {}: kept {y:?}, expected the true blocks in order {want:?}", layout_name(lay));
     let d = guarded(|| pu.depuncture(&y)).map_err(|e| Fail::new("panic", format!("depuncture panicked: {e}")))?;
     let d = d.map_err(|e| Fail::new("depuncture-err", format!("depuncture rejected a divisible length: {e}")))?;
     ensure!(d.len() == n, "depuncture-length", "depuncture gives {} values, codeword length is {n}", d.len());
@@ -132,7 +184,7 @@ fn check_pu(c: &PuCase, p: &mut Probe) -> Check {
     if c.extra > 0 && (n + c.extra) % pat.len() != 0 {
         p.class("indivisible-puncture");
         let xx: Vec<i64> = (0..(n + c.extra) as i64).collect();
-        let r = guarded(|| pu.puncture(&Array1::from_vec(xx))).map_err(|e| Fail::new("panic", format!("puncture panicked on an indivisible length: {e}")))?;
+        let r = guarded(|| with_layout(&xx, -1, lay, |v| pu.puncture(&v))).map_err(|e| Fail::new("panic", format!("puncture panicked on an indivisible length: {e}")))?;
         ensure!(r.is_err(), "indivisible-accepted", "puncture accepted length {} with a pattern of length {}", n + c.extra, pat.len());
     }
     if c.extra > 0 && (y.len() + c.extra) % t != 0 {
@@ -154,14 +206,14 @@ pub fn property() -> Property {
         subs: vec![
             Box::new(EnumSub {
                 name: "interleaver-shapes",
-                rule: "exhaustive over all (columns, rows) in 1..=12 squared (thorough 1..=40) x both reading directions: output[r*C+c] = input[c*R+r] (or input[(C-1-c)*R+r] backwards) on distinct u32 labels; deinterleave o interleave = id and interleave o deinterleave = id; the same placement bit-exactly for f64 (incl. -0.0) and GF2 elements; non-trivial = C, R >= 2",
+                rule: "exhaustive over all (columns, rows) in 1..=12 squared (thorough 1..=40) x both reading directions, each shape once through an owned standard-layout array on a fresh object and once through a non-standard layout (reversed view, stride 2, stride -2, offset sub-range, owned array with negative stride) on an object that has already processed a block of another length; the second half of the checks runs on a clone taken after first use: output[r*C+c] = input[c*R+r] (or input[(C-1-c)*R+r] backwards) on distinct u32 labels; deinterleave o interleave = id and interleave o deinterleave = id; the same placement bit-exactly for f64 (incl. -0.0) and GF2 elements; non-trivial = C, R >= 2",
                 cases: il_all,
                 check: check_il,
                 exhaustive: true,
             }),
             Box::new(Sub {
                 name: "interleaver-random",
-                rule: "random shapes up to 64 x 64 (degenerate C = 1 / R = 1 weighted up), both directions, random label salt; same oracle",
+                rule: "random shapes up to 64 x 64 (degenerate C = 1 / R = 1 weighted up), both directions, random label salt, all six input layouts, 40 % of the cases on an object that first processed another block length; same oracle",
                 cases: |t| t.pick(50_000, 1_000_000),
                 strategy: il_strategy,
                 check: check_il,
@@ -169,7 +221,7 @@ pub fn property() -> Property {
             }),
             Box::new(Sub {
                 name: "puncturer",
-                rule: "boolean patterns of length 1..=8 with at least one true (by construction), block size 1..=6: puncture keeps exactly the true blocks in order; depuncture puts them back with neutral values (i64 0, f64 exactly +0.0) in the removed blocks; rate = pattern length / kept blocks; lengths not divisible by the pattern length (puncture) or by the number of kept blocks (depuncture) give Err, never a panic or a shortened vector; non-trivial = something removed",
+                rule: "boolean patterns of length 1..=8 with at least one true (by construction), block size 1..=6, all six input layouts (ArrayBase views: reversed, strided, offset), 40 % of the cases on an object that first processed a codeword of another block size: puncture keeps exactly the true blocks in order; depuncture puts them back with neutral values (i64 0, f64 exactly +0.0) in the removed blocks; rate = pattern length / kept blocks; lengths not divisible by the pattern length (puncture) or by the number of kept blocks (depuncture) give Err, never a panic or a shortened vector; non-trivial = something removed",
                 cases: |t| t.pick(1_000_000, 30_000_000),
                 strategy: pu_strategy,
                 check: check_pu,
